@@ -201,6 +201,15 @@ def clause_d(facts5, rep):
                 n += 1
                 rep.check('locked' in st, 'E7.lock-scope', f.qn, show(e)[:60], locline(e['loc']),
                           'AddChunk / GetChunkBuffer read and write the chunk list: lock required', facts5.config)
+            # the chunk policy object is part of the pool the threads share, and a policy may keep state (the adaptive one
+            # grows its chunk size inside ChunkSize): any call on it belongs inside the lock as well
+            if e.get('k') == 'call' and e.get('obj') is not None and any(is_this_member(x, 'cp_') for x in walk(e['obj']) if x.get('k') == 'member'):
+                key = ('cp', show(e)[:40], locline(e['loc']))
+                if key not in seen:
+                    seen.add(key)
+                    n += 1
+                    rep.check('locked' in st, 'E7.lock-scope', f.qn, show(e)[:60], locline(e['loc']),
+                              'the chunk policy is shared pool state (a policy may update itself in ChunkSize): lock required', facts5.config)
             # no re-entrant locking: Malloc must not be called while the guard of Realloc is alive
             if e.get('k') == 'call' and e.get('cname') in ('Malloc', 'Realloc') and e.get('ccls') == POOL:
                 key = ('nest', locline(e['loc']))
